@@ -123,7 +123,7 @@ class C25(ByteChanSpec):
             argv.append("--no-status")
         argv += ["-v"] * case["verbose"]
         rc = exc = None
-        with S.installed(fs, {validator_mod: ["open", "os"], file_format: ["open"]}):
+        with S.installed(fs, {validator_mod: ["open", "os"], file_format: ["open", "os"]}):
             with S.captured_stdio() as (out, err):
                 _sys.argv = ["vc2-bitstream-validator"] + argv
                 try:
